@@ -37,6 +37,7 @@ func init() {
 		},
 		"vfExecLog":    vfExecLog,
 		"vfExecSet":    vfExecSet,
+		"vfTerminates": vfTerminates,
 		"vfFileExists": vfFileExists,
 		"vfLoadResult": vfLoadResult,
 		"vfLoadDir":    vfLoadDir,
@@ -542,4 +543,25 @@ func (p *path) renderUnder(v value, m map[string]uint64) string {
 		return "error:" + p.renderUnder(v.msg, m)
 	}
 	return fmt.Sprintf("<%T>", v)
+}
+
+type nonTermination struct{}
+
+// vfTerminates(f): runs f under a local recursion bound (150 frames) and step budget; reports
+// false when the bound is hit (natively a non-terminating recursion overflows the stack).
+func vfTerminates(p *path, caller *frame, args []value) (res value) {
+	savedLimit := p.depthLimit
+	p.depthLimit = p.depth + 150
+	defer func() {
+		p.depthLimit = savedLimit
+		if r := recover(); r != nil {
+			if _, ok := r.(nonTermination); ok {
+				res = p.tc.ff
+				return
+			}
+			panic(r)
+		}
+	}()
+	p.call(caller, args[0], nil, nil)
+	return p.tc.tt
 }
